@@ -78,6 +78,37 @@ func c04Ownership(c *Ctx, rule string) {
 			return true
 		})
 	}
+	// the list helpers never edit their argument's backing array in place:
+	// Source values are copied freely (loop variables, Joins, snapshots) and the
+	// copies share these slices
+	for _, h := range sortedKeys(helpers) {
+		hf := p.Func(h)
+		if hf == nil {
+			c.Undecided(rule, "anchor:"+h, token.NoPos, "helper not found")
+			continue
+		}
+		first := paramObj(hf, 0)
+		inPlace := ""
+		ast.Inspect(hf.Decl.Body, func(nd ast.Node) bool {
+			call, ok := nd.(*ast.CallExpr)
+			if !ok || len(call.Args) == 0 {
+				return true
+			}
+			fn := Callee(info, call)
+			if fn == nil || fn.Pkg() == nil || (fn.Pkg().Path() != "slices" && fn.Pkg().Path() != "sort") {
+				return true
+			}
+			switch fn.Name() {
+			case "Delete", "DeleteFunc", "Insert", "Replace", "Sort", "SortFunc", "Reverse", "Compact", "CompactFunc", "Strings":
+				if isObj(info, call.Args[0], first) {
+					inPlace = exprStr(call)
+				}
+			}
+			return true
+		})
+		c.Check(inPlace == "", rule, hf.Obj.Name()+":does not edit its argument in place", hf.Decl.Pos(), "works on a clone / appends only",
+			"`"+inPlace+"` rewrites the backing array that other copies of the same Source still see: a snapshot of a Source taken before includeLabel()/excludeLabel() silently loses entries")
+	}
 	c.Check(n >= 20, rule, "label-list stores enumerated", token.NoPos, itoa(n), "implausibly few stores of Source label lists ("+itoa(n)+")")
 }
 
@@ -219,8 +250,14 @@ func c04EmptyMatcher(c *Ctx, rule string) {
 	_ = p
 }
 
-// c12JoinOperands: canJoin is asked about the side as adjusted by on()/ignoring()
-// in this iteration, and about the element of the other side under inspection.
+// c12JoinOperands: canJoin is asked about each side as its sub-expression
+// produced it. The side under construction gets the on(...) labels forced into
+// its included set (they are what the result carries); asking that adjusted
+// value whether it "can have" an on() label is a tautology, and a join where
+// neither side has the label (both match on its absence) is then declared
+// dead. So the first operand is a copy of the loop variable taken before any
+// adjustment, the second the element of the inner loop, and canJoin itself
+// leaves the labels of ignoring(...) out of what it demands.
 func c12JoinOperands(c *Ctx, rule string) {
 	p := c.P
 	fi := c.MustFunc(rule, "internal/parser/utils.parseBinOps")
@@ -240,7 +277,6 @@ func c12JoinOperands(c *Ctx, rule string) {
 			return true
 		}
 		n++
-		// enclosing range statements, innermost first
 		var ranges []*ast.RangeStmt
 		for cur := pm[call]; cur != nil; cur = pm[cur] {
 			if rs, ok := cur.(*ast.RangeStmt); ok {
@@ -265,13 +301,40 @@ func c12JoinOperands(c *Ctx, rule string) {
 		}
 		inner, outer := rangeVar(ranges[0]), rangeVar(ranges[1])
 		okInner := isObj(info, call.Args[1], inner)
+		// assignments to the outer loop variable (or its fields) before pos
+		adjustedBefore := func(pos token.Pos) (bool, string) {
+			adj, what := false, ""
+			ast.Inspect(ranges[1].Body, func(m ast.Node) bool {
+				as, ok := m.(*ast.AssignStmt)
+				if !ok || as.Pos() >= pos {
+					return true
+				}
+				for _, l := range as.Lhs {
+					root, _, ok := accessPath(info, l)
+					if ok && root == outer {
+						adj = true
+						if what == "" && len(as.Rhs) > 0 {
+							what = exprStr(as.Rhs[0])
+							if len(what) > 60 {
+								what = what[:60] + "…"
+							}
+						}
+					}
+				}
+				return true
+			})
+			return adj, what
+		}
 		okOuter, why := false, ""
 		switch {
 		case isObj(info, call.Args[0], outer):
-			okOuter = true
+			if adj, what := adjustedBefore(call.Pos()); adj {
+				why = "the first operand is the source under construction after `" + what + "`: its on(...) labels were just forced in, so `can it have the label` is always true"
+			} else {
+				okOuter = true
+			}
 		default:
-			why = "the first operand is `" + exprStr(call.Args[0]) + "`, not the source being built in this iteration"
-			// a snapshot taken after every adjustment is equivalent
+			why = "the first operand is `" + exprStr(call.Args[0]) + "`, which is not a copy of this iteration's source"
 			if id, ok := ast.Unparen(call.Args[0]).(*ast.Ident); ok {
 				obj := info.Uses[id]
 				var defPos token.Pos
@@ -282,9 +345,9 @@ func c12JoinOperands(c *Ctx, rule string) {
 						return true
 					}
 					for i, l := range as.Lhs {
-						if lid, ok := l.(*ast.Ident); ok && (info.Defs[lid] == obj || info.Uses[lid] == obj) && obj != nil {
+						if lid, ok := l.(*ast.Ident); ok && obj != nil && (info.Defs[lid] == obj || info.Uses[lid] == obj) {
 							defs++
-							if i < len(as.Rhs) && isObj(info, as.Rhs[i], outer) {
+							if i < len(as.Rhs) && isObj(info, as.Rhs[i], outer) && pm[as] == ast.Node(ranges[1].Body) {
 								defPos = as.Pos()
 							}
 						}
@@ -292,35 +355,59 @@ func c12JoinOperands(c *Ctx, rule string) {
 					return true
 				})
 				if defs == 1 && defPos.IsValid() {
-					stale := false
-					ast.Inspect(ranges[1].Body, func(m ast.Node) bool {
-						as, ok := m.(*ast.AssignStmt)
-						if !ok || as.Pos() <= defPos || as.Pos() >= call.Pos() {
-							return true
-						}
-						for _, l := range as.Lhs {
-							root, _, ok := accessPath(info, l)
-							if ok && root == outer {
-								stale = true
-							}
-						}
-						return true
-					})
-					if !stale {
-						okOuter = true
+					if adj, what := adjustedBefore(defPos); adj {
+						why = "the first operand `" + id.Name + "` is a copy taken after `" + what + "`"
 					} else {
-						why = "the first operand `" + id.Name + "` is a copy taken before on()/ignoring() adjusted the source"
+						okOuter = true
 					}
 				}
 			}
 		}
-		c.Check(okOuter, rule, key+" first operand", call.Pos(), "the adjusted source of this iteration",
-			why+": labels that on()/ignoring() removes from the match are still demanded from the other side, which is then reported as dead although the join works")
+		c.Check(okOuter, rule, key+" first operand", call.Pos(), "this iteration's source as its sub-expression produced it",
+			why+": a join whose sides both lack an on(...) label (and therefore match) is reported as dead code")
 		c.Check(okInner, rule, key+" second operand", call.Pos(), "the element of the other side under inspection",
 			"the second operand is `"+exprStr(call.Args[1])+"`, not the element of the inner loop: another source is marked dead than the one examined")
 		return true
 	})
 	c.Check(n >= 4, rule, "canJoin sites enumerated", fi.Decl.Pos(), itoa(n), "expected 4 canJoin sites, found "+itoa(n))
+
+	// canJoin leaves ignoring(...) labels out of what it demands: in the branch
+	// that is not on(...), the loop over the left side's guaranteed labels skips
+	// the names listed in the matching labels.
+	cinfo := cj.Pkg.TypesInfo
+	cpm := parentMap(cj.Decl.Body)
+	found, skips := 0, 0
+	ast.Inspect(cj.Decl.Body, func(nd ast.Node) bool {
+		rs, ok := nd.(*ast.RangeStmt)
+		if !ok || !fieldSel(cinfo, rs.X, qSource, "GuaranteedLabels") {
+			return true
+		}
+		found++
+		var nameObj types.Object
+		if id, ok := rs.Value.(*ast.Ident); ok {
+			nameObj = cinfo.Defs[id]
+		}
+		ast.Inspect(rs.Body, func(m ast.Node) bool {
+			br, ok := m.(*ast.BranchStmt)
+			if !ok || br.Tok != token.CONTINUE {
+				return true
+			}
+			for _, g := range lexicalGuards(cpm, br, rs.Body) {
+				call, ok := ast.Unparen(g.E).(*ast.CallExpr)
+				if !ok || !g.Truth || len(call.Args) != 2 {
+					continue
+				}
+				if fn := Callee(cinfo, call); fn != nil && fn.Pkg() != nil && fn.Pkg().Path() == "slices" && fn.Name() == "Contains" &&
+					strings.HasSuffix(exprStr(call.Args[0]), ".MatchingLabels") && isObj(cinfo, call.Args[1], nameObj) {
+					skips++
+				}
+			}
+			return true
+		})
+		return true
+	})
+	c.Check(found == 1 && skips >= 1, rule, "canJoin:labels of ignoring(...) are not demanded from the other side", cj.Decl.Pos(), "skipped in the loop over guaranteed labels",
+		"canJoin demands every guaranteed label of one side from the other, including those listed in ignoring(...): `foo{job=\"x\"} and ignoring(job) sum without(job)(bar)` is reported as dead code although both sides match")
 }
 
 // c12AlwaysReturns: `and` / `unless` can filter every sample away, so the
@@ -372,4 +459,367 @@ func c12AlwaysReturns(c *Ctx, rule string) {
 	})
 	c.Check(stored, rule, "parseBinOps:[CardManyToMany] AlwaysReturns of the left side is re-evaluated for and/unless", loop.Pos(), "re-evaluated",
 		"the left side of `and`/`unless` keeps AlwaysReturns although the operator returns nothing when the right side is empty (and) or matches (unless): `(vector(1) and on() foo) or bar` reports bar as dead code, yet Prometheus returns bar whenever foo has no series")
+}
+
+// c12WholeLists: where a narrowing/admitting helper is given a label list with
+// `xs...`, xs is the parsed query's own list (a field reached from the AST node
+// parameter) or, inside the helpers themselves, their own variadic parameter.
+// A locally computed subset ("ignored := …; if cmp { ignored = nil }") makes
+// the analysis keep or drop labels for only some operators, which PromQL does
+// not do: vector matching treats every operator alike.
+func c12WholeLists(c *Ctx, rule string) {
+	p := c.P
+	up := p.Pkg("internal/parser/utils")
+	if up == nil {
+		return
+	}
+	info := up.TypesInfo
+	helpers := map[string]bool{}
+	for _, h := range []string{"excludeLabel", "includeLabel", "maybeIncludeLabel", "guaranteeLabel", "restrictIncludedLabels", "restrictGuaranteedLabels"} {
+		helpers["internal/parser/utils."+h] = true
+	}
+	n := 0
+	for _, fname := range []string{"parseAggregation", "parseBinOps", "walkAggregation"} {
+		fi := c.MustFunc(rule, "internal/parser/utils."+fname)
+		if fi == nil {
+			continue
+		}
+		nodeP := types.Object(nil)
+		sig := fi.Obj.Type().(*types.Signature)
+		for i := 0; i < sig.Params().Len(); i++ {
+			if t := sig.Params().At(i).Type(); strings.HasPrefix(typeQName(t), promParserPath+".") {
+				nodeP = sig.Params().At(i)
+			}
+		}
+		seq := map[string]int{}
+		ast.Inspect(fi.Decl.Body, func(nd ast.Node) bool {
+			call, ok := nd.(*ast.CallExpr)
+			if !ok {
+				return true
+			}
+			fn := Callee(info, call)
+			if fn == nil || !helpers[funcQName(fn)] {
+				return true
+			}
+			var list ast.Expr
+			if call.Ellipsis.IsValid() {
+				list = call.Args[len(call.Args)-1]
+			} else if strings.HasPrefix(fn.Name(), "restrict") && len(call.Args) == 2 {
+				list = call.Args[1]
+			}
+			if list == nil {
+				return true
+			}
+			n++
+			seq[fn.Name()]++
+			key := fname + ":" + fn.Name() + "#" + itoa(seq[fn.Name()]) + " takes the query's whole list"
+			root, path, ok := accessPath(info, list)
+			good := ok && root == nodeP && strings.Contains(path, ".")
+			c.Check(good, rule, key, call.Pos(), exprStr(list),
+				"the label list handed to "+fn.Name()+" is `"+exprStr(list)+"`, not a list of the parsed query node: which labels are kept or dropped now depends on something other than the query's by/without/on/ignoring/group lists (for example on the operator), which Prometheus' vector matching never does")
+			return true
+		})
+	}
+	c.Check(n >= 12, rule, "label-list arguments enumerated", token.NoPos, itoa(n), "implausibly few ("+itoa(n)+")")
+}
+
+// c12Arithmetic: the constant folding of arithmetic operators agrees with
+// PromQL's (IEEE float) arithmetic: one unconditional result per operator,
+// computed by the Go operator / math function of the same meaning on
+// (ls.ReturnedNumber, rs.ReturnedNumber), and every arithmetic operator of the
+// vendored lexer has a case.
+func c12Arithmetic(c *Ctx, rule string) {
+	p := c.P
+	csr := c.MustFunc(rule, "internal/parser/utils.calculateStaticReturn")
+	if csr == nil {
+		return
+	}
+	info := csr.Pkg.TypesInfo
+	ref := map[string]string{"ADD": "+", "SUB": "-", "MUL": "*", "DIV": "/", "MOD": "math.Mod", "POW": "math.Pow", "ATAN2": "math.Atan2"}
+	// classification of every operator constant of the vendored lexer
+	other := map[string]string{
+		"EQL": "matcher/assignment only", "EQL_REGEX": "matcher only", "NEQ_REGEX": "matcher only",
+		"EQLC": "comparison", "NEQ": "comparison", "LTE": "comparison", "LSS": "comparison", "GTE": "comparison", "GTR": "comparison",
+		"LAND": "set", "LOR": "set", "LUNLESS": "set",
+		"AT": "@ modifier, not a binary operator",
+	}
+	if pkg := p.Pkg(promParserPath); pkg != nil {
+		in := false
+		nOps := 0
+		for _, f := range pkg.Syntax {
+			for _, d := range f.Decls {
+				gd, ok := d.(*ast.GenDecl)
+				if !ok || gd.Tok != token.CONST {
+					continue
+				}
+				for _, sp := range gd.Specs {
+					vs := sp.(*ast.ValueSpec)
+					for _, nm := range vs.Names {
+						switch nm.Name {
+						case "operatorsStart":
+							in = true
+							continue
+						case "operatorsEnd":
+							in = false
+							continue
+						}
+						if in {
+							nOps++
+							_, a := ref[nm.Name]
+							_, o := other[nm.Name]
+							c.Check(a || o, rule, "vendored operator "+nm.Name+" is classified", nm.Pos(), "known", "the vendored lexer has an operator "+nm.Name+" that the static evaluation table does not classify (arithmetic / comparison / set / matcher)")
+						}
+					}
+				}
+			}
+		}
+		c.Check(nOps >= 19, rule, "vendored operators enumerated", token.NoPos, itoa(nOps), "found "+itoa(nOps)+" operators between operatorsStart and operatorsEnd")
+	}
+	sig := csr.Obj.Type().(*types.Signature)
+	lsP, rsP := sig.Params().At(paramIndex(sig, "ls")), sig.Params().At(paramIndex(sig, "rs"))
+	isNum := func(e ast.Expr, who types.Object) bool {
+		sel, ok := ast.Unparen(e).(*ast.SelectorExpr)
+		return ok && sel.Sel.Name == "ReturnedNumber" && fieldOwner(info, sel) == qSource && isObj(info, sel.X, who)
+	}
+	seen := map[string]bool{}
+	for _, sw := range findSwitches(csr.Decl.Body, func(s *ast.SwitchStmt) bool { return s.Tag != nil }) {
+		cases, _ := switchCases(sw)
+		for _, cs := range cases {
+			k := constObj(info, cs.Expr)
+			if k == nil {
+				continue
+			}
+			want, isArith := ref[k.Name()]
+			if !isArith {
+				continue
+			}
+			seen[k.Name()] = true
+			key := "calculateStaticReturn:" + k.Name() + " folds to ls " + want + " rs, unconditionally"
+			body := cs.Clause.Body
+			ok, got := false, ""
+			if len(cs.Clause.List) == 1 && len(body) == 1 {
+				if r, isRet := body[0].(*ast.ReturnStmt); isRet && len(r.Results) >= 1 {
+					got = exprStr(r.Results[0])
+					switch x := ast.Unparen(r.Results[0]).(type) {
+					case *ast.BinaryExpr:
+						ok = x.Op.String() == want && isNum(x.X, lsP) && isNum(x.Y, rsP)
+					case *ast.CallExpr:
+						if fn := Callee(info, x); fn != nil && fn.Pkg() != nil && fn.Pkg().Path()+"."+fn.Name() == want && len(x.Args) == 2 {
+							ok = isNum(x.Args[0], lsP) && isNum(x.Args[1], rsP)
+						}
+					}
+				}
+			} else {
+				got = itoa(len(body)) + " statements / " + itoa(len(cs.Clause.List)) + " operators in one case"
+			}
+			c.Check(ok, rule, key, cs.Clause.Pos(), got,
+				"the constant folded for PromQL operator "+k.Name()+" is `"+got+"`, not the single unconditional `ls.ReturnedNumber "+want+" rs.ReturnedNumber`: PromQL uses IEEE arithmetic (x/0 = ±Inf, NaN propagates), so a special case changes the outcome of a later comparison and with it the dead-code verdict")
+		}
+	}
+	for _, k := range sortedKeys(ref) {
+		c.Check(seen[k], rule, "calculateStaticReturn:handles arithmetic operator "+k, csr.Decl.Pos(), "case present",
+			"arithmetic operator "+k+" has no case: the result silently becomes the left operand, so `(vector(1) "+strings.ToLower(k)+" vector(2)) < 0.5` is judged as `1 < 0.5` and reported as dead code")
+	}
+}
+
+// c12KnownValue: the statically known value (KnownReturn/ReturnedNumber) and
+// "always returns" survive only through nodes that pass values through.
+func c12KnownValue(c *Ctx, rule string) {
+	// (i) parseCall clears KnownReturn of argument-derived sources, except for an
+	// allow-list of pass-through functions
+	passThrough := map[string]string{
+		"label_replace": "rewrites labels only", "label_join": "rewrites labels only",
+		"sort": "reorders", "sort_desc": "reorders", "sort_by_label": "reorders", "sort_by_label_desc": "reorders",
+	}
+	if pc := c.MustFunc(rule, "internal/parser/utils.parseCall"); pc != nil {
+		info := pc.Pkg.TypesInfo
+		pm := parentMap(pc.Decl.Body)
+		var store *ast.AssignStmt
+		ast.Inspect(pc.Decl.Body, func(n ast.Node) bool {
+			as, ok := n.(*ast.AssignStmt)
+			if !ok || len(as.Lhs) != 1 || len(as.Rhs) != 1 {
+				return true
+			}
+			if sel, ok := as.Lhs[0].(*ast.SelectorExpr); ok && sel.Sel.Name == "KnownReturn" && fieldOwner(info, sel) == qSource && exprStr(as.Rhs[0]) == "false" {
+				store = as
+			}
+			return true
+		})
+		if store == nil {
+			c.Bad(rule, "parseCall:known value cleared for argument-derived sources", pc.Decl.Pos(), "a source built for f(x) keeps KnownReturn/ReturnedNumber of x: `abs(vector(-1)) > 0` is judged as `-1 > 0` and reported as dead code")
+		} else {
+			// precedes the parsePromQLFunc call of the same loop body
+			bad := ""
+			if cc, sw := enclosingCase(pm, store); cc != nil && sw != nil {
+				// default clause of a switch on the function name: exempt names must be pass-through
+				if len(cc.List) != 0 {
+					bad = "the store sits in a non-default case"
+				}
+				for _, st := range sw.Body.List {
+					for _, e := range st.(*ast.CaseClause).List {
+						if s, ok := constString(info, e); ok {
+							if _, pt := passThrough[s]; !pt {
+								bad = "function " + s + " is exempt although it changes values"
+							}
+						}
+					}
+				}
+			} else if g := lexicalGuards(pm, store, pc.Decl.Body); len(g) > 0 {
+				// only the enclosing value-type switch of parseCall may guard it
+				for _, a := range g {
+					if a.Tag == nil {
+						bad = "guarded by `" + exprStr(a.E) + "`"
+					}
+				}
+			}
+			c.Check(bad == "", rule, "parseCall:known value cleared for argument-derived sources", store.Pos(), "cleared unless the function passes values through", bad)
+		}
+	}
+	// (ii) unary minus
+	if wn := c.MustFunc(rule, "internal/parser/utils.walkNode"); wn != nil {
+		info := wn.Pkg.TypesInfo
+		found, ok := false, false
+		ast.Inspect(wn.Decl.Body, func(n ast.Node) bool {
+			cc, isCC := n.(*ast.CaseClause)
+			if !isCC || len(cc.List) != 1 {
+				return true
+			}
+			if t := info.TypeOf(cc.List[0]); t == nil || typeQName(t) != promParserPath+".UnaryExpr" {
+				return true
+			}
+			found = true
+			for _, st := range cc.Body {
+				ast.Inspect(st, func(m ast.Node) bool {
+					as, isAs := m.(*ast.AssignStmt)
+					if !isAs {
+						return true
+					}
+					for _, l := range as.Lhs {
+						if sel, isSel := l.(*ast.SelectorExpr); isSel && fieldOwner(info, sel) == qSource && (sel.Sel.Name == "ReturnedNumber" || sel.Sel.Name == "KnownReturn") {
+							ok = true
+						}
+					}
+					return true
+				})
+			}
+			return false
+		})
+		c.Check(found && ok, rule, "walkNode:unary operator adjusts or forgets the known value", wn.Decl.Pos(), "ReturnedNumber negated / KnownReturn cleared",
+			"the sources of a unary expression are forwarded unchanged: `-vector(1) < 0` is judged as `1 < 0` and reported as dead code")
+	}
+	// (iii) absent() does not inherit AlwaysReturns
+	if pf := c.MustFunc(rule, "internal/parser/utils.parsePromQLFunc"); pf != nil {
+		info := pf.Pkg.TypesInfo
+		okAbsent := false
+		ast.Inspect(pf.Decl.Body, func(n ast.Node) bool {
+			cc, isCC := n.(*ast.CaseClause)
+			if !isCC {
+				return true
+			}
+			isAbsent := false
+			for _, e := range cc.List {
+				if s, ok := constString(info, e); ok && s == "absent" {
+					isAbsent = true
+				}
+			}
+			if !isAbsent {
+				return true
+			}
+			for _, st := range cc.Body {
+				if as, ok := st.(*ast.AssignStmt); ok && len(as.Lhs) == 1 && len(as.Rhs) == 1 {
+					if sel, ok := as.Lhs[0].(*ast.SelectorExpr); ok && sel.Sel.Name == "AlwaysReturns" && fieldOwner(info, sel) == qSource && exprStr(as.Rhs[0]) == "false" {
+						okAbsent = true
+					}
+				}
+			}
+			return false
+		})
+		c.Check(okAbsent, rule, "parsePromQLFunc:absent() does not inherit AlwaysReturns", pf.Decl.Pos(), "cleared",
+			"the source built for absent(x) keeps AlwaysReturns of x although absent() returns something exactly when x does not: `absent(vector(1)) or foo` reports foo as dead code")
+	}
+}
+
+// c04LostUpdates: a range statement hands out a COPY of each Source. A store
+// to a field of that copy only matters if the copy is used afterwards in the
+// same iteration (appended, passed on, assigned). A loop that only stores
+// loses the update — e.g. "compute the conditions once per side" hoisted into
+// its own loop leaves every source unconditional.
+func c04LostUpdates(c *Ctx, rule string) {
+	p := c.P
+	up := p.Pkg("internal/parser/utils")
+	if up == nil {
+		return
+	}
+	info := up.TypesInfo
+	n := 0
+	for _, fi := range p.AllFuncs() {
+		if fi.Pkg != up || fi.Decl.Body == nil || p.IsTestFile(fi.Decl.Pos()) {
+			continue
+		}
+		seq := 0
+		ast.Inspect(fi.Decl.Body, func(nd ast.Node) bool {
+			rs, ok := nd.(*ast.RangeStmt)
+			if !ok || rs.Value == nil {
+				return true
+			}
+			vid, ok := rs.Value.(*ast.Ident)
+			if !ok {
+				return true
+			}
+			v := info.Defs[vid]
+			if v == nil {
+				v = info.Uses[vid]
+			}
+			if v == nil || typeQName(v.Type()) != qSource {
+				return true
+			}
+			if _, isPtr := v.Type().(*types.Pointer); isPtr {
+				return true
+			}
+			// last store to a field of v, and last whole-value use of v, in the body
+			var lastStore, lastUse token.Pos
+			pm := parentMap(rs.Body)
+			ast.Inspect(rs.Body, func(m ast.Node) bool {
+				id, ok := m.(*ast.Ident)
+				if !ok || info.Uses[id] != v {
+					return true
+				}
+				par := pm[id]
+				if sel, isSel := par.(*ast.SelectorExpr); isSel && sel.X == ast.Node(id) {
+					// field access: a store if the selector is an assignment target
+					if as, ok := pm[sel].(*ast.AssignStmt); ok {
+						for _, l := range as.Lhs {
+							// the right-hand side is evaluated before the store: only uses
+							// after the whole statement count
+							if l == ast.Expr(sel) && as.End() > lastStore {
+								lastStore = as.End()
+							}
+						}
+					}
+					return true
+				}
+				// whole value: skip pure assignment targets `v = …` / `v, x = …`
+				if as, ok := par.(*ast.AssignStmt); ok {
+					for _, l := range as.Lhs {
+						if l == ast.Expr(id) {
+							return true
+						}
+					}
+				}
+				if id.Pos() > lastUse {
+					lastUse = id.Pos()
+				}
+				return true
+			})
+			if !lastStore.IsValid() {
+				return true
+			}
+			n++
+			seq++
+			c.Check(lastUse > lastStore, rule, fi.Obj.Name()+":fields stored on range copy `"+vid.Name+"` #"+itoa(seq)+" are used afterwards", rs.Pos(), "copy is passed on after the store",
+				"the loop stores into fields of `"+vid.Name+"`, which is a copy of the slice element, and never uses the copy afterwards: the update is lost and the sources keep their old attributes (conditional / dead / labels)")
+			return true
+		})
+	}
+	c.Check(n >= 10, rule, "range copies with field stores enumerated", token.NoPos, itoa(n), "implausibly few ("+itoa(n)+")")
 }
